@@ -268,9 +268,41 @@ def run(ctx):
     ctx.extra['violations_by_scenario'] = seen
 
 
+REAL_FMT_SRCS = [
+    'struct RtHost { n: u32, data: array<vec4<f32>> }\n@group(0) @binding(0) var<storage, read> rt: RtHost;\nstruct U { a: f32, b: vec3<f32> }\n'
+    '@group(0) @binding(1) var<uniform> u: U;\nstruct VIn { @location(0) p: vec4<f32> }\n@vertex fn vs(i: VIn) -> @builtin(position) vec4<f32> { return i.p; }\n'
+    '@fragment fn fs() -> @location(0) vec4<f32> { return vec4<f32>(u.a); }\n@compute @workgroup_size(8, 4) fn cs() { let n = arrayLength(&rt.data); }\n',
+    'override gain: f32 = 2.0;\n@id(3) override flag: bool;\nconst K: u32 = 3u;\nvar<push_constant> pc: vec4<f32>;\n'
+    '@fragment fn fs() -> @location(0) vec4<f32> { if (flag) { return pc * gain; } return pc; }\n',
+]
+REAL_FMT_OPTS = [{'derive_encase_host_shareable': True}, {'derive_encase_host_shareable': True, 'derive_serde': True, 'derive_bytemuck_vertex': True, 'matrix_vector_types': 'Glam'}]
+
+
+def native_real_formatter(ctx, seen):
+    """the REAL rustfmt of this machine (when there is one): formatter on and off must give the same program.  That rustfmt preserves
+    tokens in general is outside the claim; that the generator does not emit something rustfmt is known to rewrite (adjacent derive
+    attributes are merged, ...) is checked here on a small corpus"""
+    import shutil
+    if shutil.which('rustfmt') is None:
+        ctx.sample({'real rustfmt': 'not installed, skipped'})
+        return
+    for src in REAL_FMT_SRCS:
+        for o in REAL_FMT_OPTS:
+            r1 = ctx.S.oracle.gen(src, dict(o, rustfmt=True))
+            r0 = ctx.S.oracle.gen(src, dict(o, rustfmt=False))
+            if 'ok' in r0 and 'ok' in r1 and same_program(ctx, r1['ok'], r0['ok']):
+                ctx.replayed_ok += 1
+            elif 'ok' in r0 or 'ok' in r1:
+                key = 'C19/real-rustfmt'
+                if key not in seen:
+                    seen[key] = 1
+                    ctx.report(key, 'with the real rustfmt the formatted program is not the unformatted program', {'wgsl': src, 'options': dict(o, rustfmt=True)}, True)
+
+
 def native_all(ctx, seen=None):
     """every fault scenario on the real build, below and above the pipe buffer: all must return the program"""
     seen = {} if seen is None else seen
+    native_real_formatter(ctx, seen)
     for sc in FAKES:
         for big in ((False, True) if ctx.tier == 'thorough' or sc in ('exit0_without_reading', 'exit0_after_partial_read_with_output', 'killed', 'killed_after_partial_output', 'working') else (False,)) \
                 + ((1, 2, 3) if sc in ('working', 'exit1_after_reading') else ()):
